@@ -666,7 +666,7 @@ def reference(spec, dp_raw, doc) -> Ref:
         gj = ed.get(g["plural"])
         flat = T.flat_roles(g)
         if gj is None:
-            if axes is not None and ref.shape == "full":
+            if axes is not None:
                 ref.skip = ref.skip or "axes without a fully specified group kind"
             ref.ents.append({"key": g["key"], "ids": list(pids), "memb": list(range(len(pids))), "roles": [flat[0]] * len(pids)})
             counts[g["key"]] = len(pids)
@@ -1168,6 +1168,7 @@ LONG_PLANS = [
     [("month", "2018-02", 1), ("month", "2018-02", 2), ("month", "2018-01", 6), ("year", "2018", 1)],
     [("month", "2017-12", 1), ("month", "2017-11", 3), ("year", "2017", 2)],
     [("month", "2018-03", 1), ("month", "2018-05", 1), ("year", "2018", 1), ("month", "2017-12", 1)],
+    [("month", "2018-01", 24), ("year", "2018", 1)], [("month", "2017-07", 18), ("year", "2018", 1), ("month", "2018-02", 1)],
 ]
 
 
@@ -1184,7 +1185,7 @@ def long_values(rng, v, plan):
     """Values for one instance of a dispatch / divide variable over a plan of periods: every share
     of a divided total stays on the quarter lattice."""
     out, known = {}, {}
-    for den in sorted(plan, key=lambda d: (_W[d[0]], d[2])):
+    for den in sorted(plan, key=lambda d: (len(months_of(d)), _W[d[0]])):
         ms = months_of(den)
         free = [m for m in ms if m not in known]
         if v["rule"] == "dispatch":
@@ -1250,7 +1251,11 @@ def pick_ids(rng, pool, n, allow_int=True, avoid=()):
 def gen_groups(rng, g, pids, avoid, all_members=False):
     """instances of one group kind: {gid: {role key: [...]}} with every constraint of the roles kept."""
     ng = rng.randint(0, 4) if not all_members else rng.randint(1, 3)
-    gids = pick_ids(rng, GROUP_IDS, ng, avoid=avoid)
+    if rng.random() < 0.1:                                 # ids shared with persons (repair C12i)
+        gids = pick_ids(rng, GROUP_IDS + [str(p) for p in pids], ng)
+        gids = list(dict.fromkeys(str(x) for x in gids))
+    else:
+        gids = pick_ids(rng, GROUP_IDS, ng, avoid=avoid)
     groups = {gid: {} for gid in gids}
     room = {gid: {T.role_doc_key(r): T.role_max(r) for r in g["roles"]} for gid in gids}
     for pid in pids:
@@ -1284,7 +1289,7 @@ def gen_axes(rng, spec, counts, dp):
         cands = [v for v in spec["vars"] if v["entity"] == ek and v["type"] in ("float", "int") and v["rule"] == "absent"]
         cnt = rng.randint(1, 4) if ndim == 1 else rng.randint(2, 3)
         dim = []
-        for _ in range(rng.randint(1, 2) if d == 0 else 1):
+        for _ in range(rng.randint(1, 2)):
             v = rng.choice(cands)
             a = {"name": v["name"], "count": cnt}
             step = rng.randint(0, 40) if v["type"] == "int" else rng.randint(0, 400) / 4
@@ -1689,7 +1694,7 @@ def generate(rng: random.Random, tier: str):
                 dp, doc = gen_vars_doc(rng, spec)
                 out.append(mk_case(spec, dp, doc, tags=("valid", "shape:vars")))
             elif r < 0.26:
-                dp, doc = gen_entities_doc(rng, spec, short=True)
+                dp, doc = gen_entities_doc(rng, spec, short=True, want_axes=rng.random() < 0.25 and bool(spec["groups"]))
                 out.append(mk_case(spec, dp, doc, tags=("valid", "shape:short" if is_short_form(spec, doc) else "shape:full")))
             elif r < 0.44 and spec["groups"]:
                 dp, doc = gen_entities_doc(rng, spec, want_axes=True)
@@ -1836,7 +1841,7 @@ PROP = Prop(
     assumptions=[
         "Holder.set_input and the two set_input helpers are outside this model: the theorems take `setInput` as a parameter with the stated frame assumption (never overwrite a known period of the variable, touch no other variable); the driver runs a transcription of the repaired helpers, tied by this correspondence; the clause 'longer periods fill only what is unknown' is checked by the oracle on the real code",
         "ids, variable names and text values are ASCII; two keys of one object never have the same text (a Python dict cannot hold duplicate keys; 1 and '1' together are not generated)",
-        "group ids differ from person ids (finding F-C12i when they collide); eternal variables are keyed ETERNITY/eternity only (finding F-C12j); every instance that declares a dispatch/divide variable on a long period declares the same periods (finding F-C12m); a span of more than 12 months is not combined with a year it contains (finding F-C12l)",
+        "eternal variables are keyed ETERNITY/eternity only in the main streams (finding F-C12j); every instance that declares a dispatch/divide variable on a long period declares the same periods (finding F-C12m); refusals inside axes and in the variables-only form are judged as 'an error' only (finding F-C12-errclass)",
         "numpy / numexpr conversions are modelled on the claimed value forms only (numbers, booleans, ISO dates, enum names, arithmetic text over 0-9 . + - * blank, plain words); other forms answer UNMODELLED in the model and are not binding",
         "float values are dyadic and exactly representable in float32; a divided share is one IEEE float32 division (the comparison rounds the model's exact quotient the same way)",
         "the order in which a Python set yields the persons left out of a group kind is not observable behaviour: own-groups are renumbered in person order before comparison; ids of axis copies are compared with the model but not judged by the oracle",
